@@ -132,6 +132,11 @@ func VerifH14() {
 	if nd.Tier() == 0 {
 		w.keys = []string{"a"}
 	}
+	// optionally a transaction is open from the start (so that several writes of one key inside a
+	// transaction followed by its commit fit into the bound)
+	if lv := nd.Choice("start-with-tx", 3); lv < 2 {
+		w.begin(a.levels[lv])
+	}
 	for i := 0; i < k; i++ {
 		w.step(a, "H14")
 	}
